@@ -31,6 +31,13 @@ def scenarios():
     add("T12-fail-corrupt-finished", srv, cli, "ver=T12", "ver=T12 suites=0xc02f", sends=(), fail="corrupt")
     add("T12-psk", srv, cli, "ver=T12", "ver=T12 suites=0xae", sends=((300, 300),))
     add("T13-early-data", srv, cli, "ver=T13 early=16384", "ver=T13 sid=R", prelude=True, early=True)
+    # middlebox-compatibility ChangeCipherSpec records (plaintext, to be ignored) in front of protected records, as other stacks send
+    # them: one and two of them, behind the ClientHello, in front of the client's Finished flight and in front of application data
+    for n in (1, 2):
+        add("T13-ccs%d" % n, srv, cli, "ver=T13", "ver=T13", sends=((34, 20), (3, 3)))
+        S[-1]["ccs"] = n
+        add("T13-ccs%d-early-data" % n, srv, cli, "ver=T13 early=16384", "ver=T13 sid=R", prelude=True, early=True)
+        S[-1]["ccs"] = n
     # the server application speaks first (its data travels right behind its Finished), then the session is resumed
     for nm, so, co in (("T12-server-first+resume", "ver=T12", "ver=T12 suites=0xc02f sid=Q"), ("T12-server-first+ticket-resume", "ver=T12", "ver=T12 suites=0x3c sid=Q tick=1"),
                        ("T13-server-first+resume", "ver=T13", "ver=T13 sid=Q"), ("T11-server-first+resume", "ver=T11", "ver=T11 suites=0x2f sid=Q")):
@@ -51,6 +58,12 @@ def run_lines(sc, pump):
     L += ["new s0 server keys=ks %s" % sc["so"], "new c0 client keys=kc %s" % sc["co"], "link c0 s0"]
     if sc["early"]:
         L += ["send c0 12", "send c0 30"]
+    if sc.get("ccs"):
+        ccs = ["injectrec c0 %d 20 1 body=01"] * sc["ccs"]
+        # behind the ClientHello (in front of early data, if any); then in front of the client's second flight; then in front of data
+        L += ["flush c0"] + [x % 1 for x in ccs] + [pump.replace("cpump c0 s0", "cpump c0 s0 max=2") if "max=" not in pump else pump]
+        L += ["flush c0"] + [x % 0 for x in ccs] + [pump]
+        L += ["send c0 34", "flush c0"] + [x % 0 for x in ccs] + [pump]
     if sc["fail"] == "corrupt":
         # the client's Finished is damaged in flight (same damage in every run): the server must answer identically
         L += ["pump c0 s0 max=3", "flush c0", "mod c0 2 -1 0x01", pump]
